@@ -4,6 +4,7 @@ cd /verif
 for d in seeded/*/; do
   name=$(basename $d); prop=$(python3 -c "import json;print(json.load(open('$d/meta.json'))['property'])")
   extra=$(python3 -c "import json;print(' '.join(json.load(open('$d/meta.json')).get('also_checks',[])))")
+  if python3 -c "import json,sys;sys.exit(0 if json.load(open('$d/meta.json')).get('superseded') else 1)"; then echo "$name: SKIP (superseded, see meta.json)"; continue; fi
   git -C /repo checkout -q -- . ; git -C /repo apply /verif/$d/patch.diff || { echo "$name: APPLY FAILED"; continue; }
   for c in $prop $extra; do
     out=$(bin/verif check $c --tier ${1:-quick} 2>&1); rc=$?
